@@ -162,62 +162,6 @@ func checkValidatorPipeline(c *core.Ctx, prog *core.Prog) {
 		r.Undecided("load:templates", "-", err.Error())
 		return
 	}
-	// multipart file members: every kind branch of the FileParameters loop decides presence — a branch whose text
-	// discards the presence flag (`_ = ok`) must do so under a test of the member's requiredness
-	{
-		found := 0
-		for name, tr := range ts.Trees {
-			tmpl.Walk(tr.Root, func(n parse.Node) bool {
-				rn, ok := n.(*parse.RangeNode)
-				if !ok || !strings.Contains(rn.Pipe.String(), "FileParameters") {
-					return true
-				}
-				found++
-				// every text node under the range that contains `_ = ok`
-				var check func(n parse.Node, underRequired bool)
-				check = func(n parse.Node, underRequired bool) {
-					if n == nil {
-						return
-					}
-					switch x := n.(type) {
-					case *parse.ListNode:
-						if x == nil {
-							return
-						}
-						for _, m := range x.Nodes {
-							check(m, underRequired)
-						}
-					case *parse.IfNode:
-						// both arms of a test of Spec.Required know the requiredness; a primitive (non-generic) file
-						// member is required by construction, which only its true arm knows
-						req := underRequired || strings.Contains(x.Pipe.String(), "Spec.Required")
-						check(x.List, req || strings.Contains(x.Pipe.String(), "IsPrimitive"))
-						check(x.ElseList, req)
-					case *parse.RangeNode:
-						check(x.List, underRequired)
-						check(x.ElseList, underRequired)
-					case *parse.WithNode:
-						check(x.List, underRequired)
-						check(x.ElseList, underRequired)
-					case *parse.TextNode:
-						if strings.Contains(string(x.Text), "_ = ok") {
-							pos := fmt.Sprintf("gen/_template/%s:%d", ts.FileOf[name], ts.Line(name, x.Pos))
-							if underRequired {
-								r.Pass("multipart file member: presence is discarded only where the member's requiredness was tested (" + pos + ")")
-							} else {
-								r.Fail("multipart-file-presence-discarded", pos, "the multipart decoder discards the presence flag of a file member (`_ = ok`) without looking at Spec.Required: a request that lacks a required array-of-files part is accepted and the handler runs with an empty slice")
-							}
-						}
-					}
-				}
-				check(rn.List, false)
-				return false
-			})
-		}
-		if found == 0 {
-			r.Undecided("anchor:FileParameters", "-", "no `range … .FileParameters` found in the templates")
-		}
-	}
 	lits := validatorLiterals(ts)
 	runtimeMethods := map[string][]string{
 		"Int":    {"Int.Validate"},
